@@ -16,8 +16,9 @@ abbrev Cfg := List (String × CV)
 
 def Cfg.get (c : Cfg) (a : String) : Option CV := (c.find? (fun e => e.1 == a)).map (·.2)
 
-def Cfg.set (c : Cfg) (a : String) (v : CV) : Cfg :=
-  if c.any (fun e => e.1 == a) then c.map (fun e => if e.1 == a then (a, v) else e) else c ++ [(a, v)]
+def Cfg.set : Cfg → String → CV → Cfg
+  | [], a, v => [(a, v)]
+  | (k, x) :: t, a, v => if k == a then (a, v) :: t else (k, x) :: Cfg.set t a v
 
 def Cfg.unset (c : Cfg) (a : String) : Cfg := c.filter (fun e => e.1 != a)
 
